@@ -195,3 +195,46 @@ func H08g_twin() {
 		vAssert(false, "H08g_twin.reach: reachable")
 	}
 }
+
+// H08r: the repair sweep (xorTreeRepair.checkPage) visits every page. For an arbitrary highest clock and an
+// arbitrary current page of the sweep (within the DAG), one real checkPage step on an (empty, consistent) store
+// moves the cursor to the next page while there is one - also when the highest clock is the first clock of the
+// last page - and back to page 0 after the last page: so a sweep 0, 1, .., lastPage covers the page of every
+// stored transaction, and a damaged digest on any page is reached.
+func H08r() {
+	kv := newHKV()
+	s := hNewState(kv, PageSize, func(Transaction) bool { return true })
+	f := &xorTreeRepair{state: s, circuitState: circuitRed}
+	vTag("highest_clock")
+	high := vU32()
+	vAssume(high < 1<<31)
+	vTag("current_page")
+	cur := vU32()
+	lastPage := high / PageSize
+	vAssume(cur <= lastPage)
+	s.lamportClockHigh.Store(high)
+	f.currentPage = cur
+	f.checkPage()
+	if cur < lastPage {
+		vCover("advance")
+		if high%PageSize == 0 && cur+1 == lastPage {
+			vCover("last-page-holds-only-the-highest-clock")
+		}
+		vAssert(f.currentPage == cur+1, "H08r.sweep_advances: the repair sweep does not move on to the next page although the DAG has one (that page is never checked)")
+	} else {
+		vCover("wrap")
+		vAssert(f.currentPage == 0, "H08r.sweep_wraps: the repair sweep does not start over after the last page")
+	}
+}
+
+func H08r_twin() {
+	kv := newHKV()
+	s := hNewState(kv, PageSize, func(Transaction) bool { return true })
+	f := &xorTreeRepair{state: s, circuitState: circuitRed}
+	s.lamportClockHigh.Store(uint32(vRange(0, 2000)))
+	f.currentPage = 1
+	f.checkPage()
+	if f.currentPage == 2 {
+		vAssert(false, "H08r_twin.reach: reachable")
+	}
+}
